@@ -13,3 +13,5 @@ var traceTotal int
 func traceReset() {}
 
 func emitTrace(cw *CaseWriter, label string) int { return 0 }
+
+func snapMode(n uint64) string { return "UNKNOWN" }
